@@ -212,13 +212,17 @@ func (s *Sim) CheckSolvency(rt *rapid.T) {
 	}
 	perUpdate.Add(perUpdate, big.NewInt(4))
 	// every swap step rounds the next sqrt price by up to 1e-36 in the pool's favour; at sqrt price s and liquidity L
-	// that is worth L*1e-36/s^2 of token0 (and L*1e-36 of token1, below one unit)
+	// that is worth L*1e-36/s^2 of token0 and L*1e-36 of token1
 	stepDust := new(big.Rat).Mul(s.InvSqrt2, new(big.Rat).SetFrac(new(big.Int).Mul(s.MaxLiq, big.NewInt(int64(2*(s.MaxTicks+2)))), bigDecOne36))
 	stepDust0 := new(big.Int).Quo(stepDust.Num(), stepDust.Denom())
 	for _, d := range []string{D0, D1} {
 		bound := new(big.Int).Add(new(big.Int).Mul(perUpdate, big.NewInt(ops)), new(big.Int).Quo(s.Vol[d], big.NewInt(1_000_000_000)))
 		if d == D0 {
 			bound.Add(bound, stepDust0)
+		} else {
+			// token1: L*1e-36 per step (exceeds one unit only for liquidity beyond 1e36, which the generator reaches)
+			d1 := new(big.Int).Mul(s.MaxLiq, big.NewInt(int64(2*(s.MaxTicks+2)*(s.Swaps+1))))
+			bound.Add(bound, d1.Quo(d1, bigDecOne36))
 		}
 		for what, addr := range map[string]sdk.AccAddress{"pool": pool.GetAddress(), "spread-reward": pool.GetSpreadRewardsAddress()} {
 			if r := b.Bal(addr, d).Amount.BigInt(); r.Cmp(bound) > 0 {
